@@ -204,6 +204,7 @@ theorem c11_threshold_at_trigger (cap q minLen : Nat) (reqs : List TReq) :
   trace_ok reqs _ {} ⟨rfl, by intro h; cases h⟩
 
 example : monC11Thr [⟨.start 0 7 true, [.bStart 7 true, .ret true]⟩, ⟨.write 0 1 true true true, [.bStart 6 true]⟩]
-    = ["C11:file-started-with-stale-threshold-or-background"] := by decide
+    = ["C11:file-started-with-stale-threshold-or-background",
+       "C06:deferred-start-not-forwarded-with-the-arguments-of-the-latest-start"] := by decide
 
 end TR.C11T
